@@ -107,7 +107,7 @@ theorem C03_wf_codec (f32Str f64Str : Nat → String) (cast : Nat → Int → Bo
     (h : toMarrow (codecExt f32Str f64Str cast) fields rows = .ok arrs) :
     arrs.length = fields.length ∧
     ∀ (j : Nat) (f : Field) (a : Arr), fields[j]? = some f → arrs[j]? = some a →
-      WF f a = true ∧ (decodeAll a).length = rows.length :=
+      WFS f a = true ∧ (decodeAll a).length = rows.length :=
   Props.C01.C03_wf' _ fields rows arrs hschema hsafe (codecExt_ok f32Str f64Str cast) hrows h
 
 /-- `SValOK`, the row hypothesis of `C03_wf`, is implied by the typing invariant of `SVal` (`SVal.typed`,
@@ -126,7 +126,7 @@ theorem C03_wf_codec_typed (f32Str f64Str : Nat → String) (cast : Nat → Int 
     (h : toMarrow (codecExt f32Str f64Str cast) fields rows = .ok arrs) :
     arrs.length = fields.length ∧
     ∀ (j : Nat) (f : Field) (a : Arr), fields[j]? = some f → arrs[j]? = some a →
-      WF f a = true ∧ (decodeAll a).length = rows.length :=
+      WFS f a = true ∧ (decodeAll a).length = rows.length :=
   C03_wf_codec f32Str f64Str cast fields rows arrs hschema hsafe (fun x hx => typed_SValOK x (hrows x hx)) h
 
 /-- non-vacuity of the typing invariant, and what it refuses -/
@@ -172,7 +172,7 @@ theorem exTOk : (toMarrow exExt exTFields exTRows).isOk = true := by decide +ker
 /-- `C03_wf_codec` on a run that parses date and timestamp strings: every hypothesis discharged -/
 example : ∀ arrs, toMarrow exExt exTFields exTRows = .ok arrs →
     arrs.length = exTFields.length ∧ ∀ (j : Nat) (f : Field) (a : Arr), exTFields[j]? = some f →
-      arrs[j]? = some a → WF f a = true ∧ (decodeAll a).length = exTRows.length := by
+      arrs[j]? = some a → WFS f a = true ∧ (decodeAll a).length = exTRows.length := by
   intro arrs h
   refine C03_wf_codec _ _ _ exTFields exTRows arrs ?_ (Or.inl ?_) ?_ h
   · simp [exTFields, Lemmas.C03.SchemaOKF, Lemmas.C03.SchemaOK]
